@@ -123,16 +123,33 @@ def split_desc(d):
     return out
 
 
+def _scrub(v, path, oor):
+    """Replace integers outside int32 by 0 and report them (the spec's clause C11_range judges them)."""
+    if isinstance(v, bool):
+        return v
+    if isinstance(v, int):
+        if v < -2 ** 31 or v > 2 ** 31 - 1:
+            oor.append({"path": path, "value": str(v)})
+            return 0
+        return v
+    if isinstance(v, list):
+        return [_scrub(x, "%s[%d]" % (path, i), oor) for i, x in enumerate(v)]
+    if isinstance(v, dict):
+        return {k: _scrub(x, path + "." + k, oor) for k, x in v.items()}
+    return v
+
+
 def prep_bp(bpjson, extra=()):
     """blueprint JSON (as emitted) -> dict ready for enc(): entities with desc split, wires as ints."""
     bp = bpjson['blueprint'] if 'blueprint' in bpjson else bpjson
     ents = []
-    for e in bp.get('entities', []):
-        e = dict(e)
+    oor = []
+    for i, e in enumerate(bp.get('entities', [])):
+        e = _scrub(dict(e), "entities[%d]" % (i + 1), oor)
         e['desc'] = split_desc(e.get('player_description'))
         ents.append(e)
     wires = [[int(x) for x in w] for w in bp.get('wires', [])]
-    out = {'entities': ents, 'wires': wires, 'extra': list(extra)}
+    out = {'entities': ents, 'wires': wires, 'extra': list(extra), 'oor': oor}
     if 'version' in bp:
         out['version_hi'] = int(bp['version']) >> 48
     return out
